@@ -219,8 +219,10 @@ def runExpiry (today : Int) : Cell → Bool
     | some us => decide (us ≥ today)
     | none => true
 
-/-- the expiry cells the model reads: `None` or a spelling of an absolute instant -/
-def expiryCovered (c : Cell) : Bool := c == .none || (expiryDate c).isSome
+/-- the expiry cells the model reads: `None`, the missing date (`pd.NaT` / `np.datetime64('NaT')` / the string `'NaT'`, all of which
+the driver hands over as the cell `.str "NaT"`: it spells no instant, so - like `None` - it is no "expiry date in the past" and the
+row is recomputed; code: `not dt(value) < today` since the fix of review v2 W4) or a spelling of an absolute instant -/
+def expiryCovered (c : Cell) : Bool := c == .none || c == .str "NaT" || (expiryDate c).isSome
 
 /-- `is_none` -/
 def Cell.isNone : Cell → Bool
